@@ -50,6 +50,11 @@ def provision(key: RKey, how: str, params: dict | None = None):
         d = rk.to_jwk(key, True)
         d.update(params or {})
         return JWKRegistry.import_key(d)
+    if how == "jwk-d-only":
+        # RFC 7518 6.3.2: a private RSA JWK may carry d without the CRT members
+        d = {k: v for k, v in rk.to_jwk(key, True).items() if k not in CRT}
+        d.update(params or {})
+        return JWKRegistry.import_key(d)
     if how == "native":
         return cls(key.priv, key.priv, params or None)
     return cls.import_key(K.pem(key, True, der=(how == "der")), params or None)
